@@ -714,6 +714,27 @@ theorem Multi.writeLoop_good : ∀ (rs dn : List Src) (w : Wr),
       subst he
       simp [multiSpec, ht, errOfTerm, hw']
 
+/-- The close-count invariant survives any sequence of `Read`s and `WriteTo`s. -/
+theorem Multi.run_inv {G : List Bool} : ∀ (ops : List MultiOp) (M : Multi), Multi.Inv G M →
+    Multi.Inv G (Multi.run .fixed M ops) := by
+  intro ops
+  induction ops with
+  | nil => intro M h; exact h
+  | cons op ops ih =>
+    intro M hI
+    cases op with
+    | read m =>
+      rw [Multi.run]
+      apply ih
+      rcases hr : M.read m with ⟨M', d, e⟩
+      obtain ⟨h1, h2, h3, _⟩ := Multi.readLoop_step m M.readers M.done M' d e hI.1 hI.2.1 hr
+      exact ⟨h1, h2, by rw [h3]; exact hI.2.2⟩
+    | writeTo w =>
+      rw [Multi.run]
+      apply ih
+      obtain ⟨h1, h2, h3⟩ := Multi.writeLoop_inv M.readers M.done w hI.1 hI.2.1
+      exact ⟨h1, h2, by rw [show M.writeTo .fixed w = Multi.writeLoop .fixed M.readers M.done w from rfl, h3]; exact hI.2.2⟩
+
 /-! ### TeeReadCloser -/
 
 /-- A stream `(bytes, terminal)` seen through a writer that accepts `cap` more bytes: unchanged if
